@@ -198,6 +198,7 @@ static std::string exec(const std::vector<std::string>& t) {
         else if (o == "fromurl" && !g_url[std::atoi(t[3].c_str())].is_valid()) r = "?";
         else if (o == "fromurl") { upa::url_search_params c(g_url[std::atoi(t[3].c_str())].search_params()); p = c; }
         else r = "?";
+        if (op == "sp" && !g_url[k].is_valid()) r = "?";
         if (op == "sp") return "r=" + r + " " + public_dump(g_url[k]) + (g_url[k].is_valid() ? " sp=" + pairs_str(p) : std::string(" sp=?"));
         return "r=" + r + " sp=" + pairs_str(p) + " str=" + hx(p.to_string());
     }
